@@ -19,12 +19,16 @@
   from the core lemmas `loop_from_checkpoint` and `interrupt_is_pause`; for the sub-graph / rerun
   interrupt only what is saved and restored (`sr_checkpoint_partial`, `sr_restore_partial`).
   MISSING for the full statement: (1) the compositional rule for nesting ("if every node body is
-  resume-correct then so is the run": needs `fold_then_get = get_after_all`, i.e. that reporting the
+  resume-correct then so is the run"): it needs `fold_then_get = get_after_all`, i.e. that reporting the
   other finished tasks before the interrupt and the restored ones after the resume gives the channels
-  of the uninterrupted superstep — reporting commutes, but the branch/skip propagation of
-  all-predecessor mode makes this a confluence argument like C02's); (2) rerun nodes, which relate two
-  different node behaviours through the user's pre-handler.  Both are covered by the correspondence
-  check only (harness/props/c05.go compares every resumed history with the uninterrupted run).
+  of the uninterrupted superstep.  In any-predecessor mode reporting commutes; in all-predecessor mode
+  the correspondence check shows it to be FALSE on the shipped code for a node reached from the same
+  predecessor by an edge and by a branch (the C02 finding: skip and dependency are written in an
+  order-dependent way) — recorded as known finding `C05:resume-equiv:edge+branch-same-pred`; outside
+  that shape it is a confluence argument like C02's.  (2) rerun nodes, which relate two different node
+  behaviours through the user's pre-handler.  (3) the Stream paradigm (`mixed_paradigm_resume`): not
+  modelled.  All three are covered by the correspondence check only (harness/props/c05.go compares
+  every resumed history, a part of them driven through Stream, with the uninterrupted run).
 -/
 import EinoV.Model.C05
 import EinoV.Model.GraphBuild
